@@ -20,6 +20,7 @@ LEVEL_TEXT = ("seeded search over operation histories up to 12 steps over a pool
 LEVEL_NOTE = ("no demand on where the configuration sits after the caller inserted something behind it; no demand on stale "
               "update blocks when deriving into a file that already has blocks (the statement covers files that have none)")
 RUNS = {"quick": 30000, "thorough": 1500000}
+OPTIMIZED_PASS = {"quick": 1500, "thorough": 30000}   # extra runs under PYTHONOPTIMIZE=1 (assert statements removed)
 RULE = ("per run a pool of 5 configurations (with/without naming values, security code, bus-address flag) and a history of "
         "3-12 operations; non-trivial = at least two configuration-related operations ran; distinct = digests of the "
         "operation/outcome sequence; evaluations = operations")
@@ -27,7 +28,7 @@ REAL = ["bec2format.bf3file (set_config, derive_comments_from_config, writer, re
         "(derive_auth_blocks_from_config, Bec2File)", "bec2format.configid", "plug-in + pyaes"]
 STUBS = ["medium: SimFS (ENOSPC for failed writes, restart)", "RNG: SimRng", "RefCfg: model of components / comments / "
          "block kinds + own TLV block decoder"]
-PROBES = ["second-file-object", "second-set-config", "component-without-type-before-config", "set-config-after-reload", "derive-after-reload",
+PROBES = ["runs-with-assertions-disabled", "second-file-object", "second-set-config", "component-without-type-before-config", "set-config-after-reload", "derive-after-reload",
           "failed-write", "stale-derived-comment-candidate", "derive-blocks-on-empty", "update-block-expected",
           "insert-behind-config"]
 ASSUMPTIONS = ["identifier existence rule taken from the C12 text: version present and (numeric scheme complete or name present)"]
